@@ -4,6 +4,7 @@ package searchset
 
 func init() {
 	vxRegister("H17bQ", H17bQ)
+	vxRegister("H17bV", H17bV)
 	vxRegister("H17bT", H17bT)
 }
 
@@ -14,13 +15,17 @@ func vxWords(n int) string {
 		if i > 0 {
 			s += " "
 		}
-		if vxBool() {
-			s += "a"
-		} else {
-			s += "b"
-		}
+		s += []string{"a", "b", "c", "d"}[vxChoice(vxVocab)]
 	}
 	return s
+}
+
+var vxVocab = 2
+
+// H17bV: a richer vocabulary (a source that repeats a phrase the target has only once)
+func H17bV() {
+	vxVocab = 3
+	h17b(vxChoice(2)+5, vxChoice(2)+3, DefaultGranularity)
 }
 
 func H17bQ() { h17b(vxChoice(4)+1, vxChoice(6)+1, DefaultGranularity) }
